@@ -179,6 +179,20 @@ CLAIMED = {
         "note": "MPI calls and allocations succeed; object kinds identified by clang record identity.",
         "design_ref": "DESIGN.md section 3 / C07",
     },
+    "C16": {
+        "technique": "table agreement (byte tables vs constants evaluated by clang), switch/arm agreement, dominance "
+                     "rules on the fill loops, object-provenance rule (old vs new header), bounded enumeration of the "
+                     "per-rank partition slice, guard-shape rule for _FillValue",
+        "text": "Decides seven structural clauses of the fill semantics: the 11 FILL_<T> byte tables equal the big-endian "
+                "encodings of NC_FILL_<T>; the fill type switches are total and each arm uses its own table; a variable "
+                "enters the aggregated fill request only after its no_fill flag was tested; redefinition fills only "
+                "variables with id >= old->vars.ndefined; offsets to fill come from the new layout (the old header is "
+                "used for counts only); the per-rank shares tile each variable exactly (bounded: nprocs <= 5); the "
+                "_FillValue attribute guards (type, single element, late fill) are in place. Values read back are not "
+                "decided.",
+        "note": "R8.partition is a bounded enumeration of an arithmetic slice, not an exhaustive argument.",
+        "design_ref": "DESIGN.md section 3 / C16",
+    },
 }
 
 NA_REASON = {
